@@ -51,7 +51,7 @@ CLAIMED = {
  'C09': {
   'text': 'Relational obligation on the two real functions the property names: MeshEdgebreakerEncoder::ComputeNumberOfEncodedPoints (encoder-side simulation of the seam handling) and MeshEdgebreakerDecoderImpl::AssignPointsToCorners (what the decoder does) run on the SAME symbolic connectivity - any corner table satisfying the C13 invariants, any attribute corner->vertex map, consistent boundary / seam flags, any compatible corner->point map of the input mesh - and must yield the same number of points. Found a genuine mismatch for input meshes with duplicate points (recorded as a known finding, KNOWN-FINDING line, exit 0) and proves the equality for deduplicated input.',
   'design_ref': 'DESIGN.md 3/C09', 'technique': _T + '; relational (encoder-side count vs decoder-side construction on shared symbolic state), known finding re-proved with its input class excluded',
-  'note': _N + 'Bounds: 2 faces / <= 4 vertices / 1 attribute connectivity. ASSUMED: the decoder reconstructs the encoder\'s connectivity (that is C01 for Edgebreaker, outside the encoded units), the C13 invariants, flags consistent with the connectivity. Outside: face counts, the sequential encoder (counts are the input\'s), point clouds, more than one attribute connectivity.'},
+  'note': _N + 'Bounds: 2 faces / <= 4 vertices / 1 attribute connectivity (2 in the thorough tier). ASSUMED: the decoder reconstructs the encoder\'s connectivity (that is C01 for Edgebreaker, outside the encoded units), the C13 invariants, flags consistent with the connectivity. Outside: face counts, the sequential encoder (counts are the input\'s), point clouds, more than two attribute connectivities, 3 or more faces (no verdict in 50 min).'},
  'C13': {
   'text': 'Inductive decomposition of CornerTable::Init on the real member functions: ComputeOppositeCorners on EVERY triangle list, BreakNonManifoldEdges and ComputeVertexCorners each from ANY state satisfying the previous phase\'s post-condition; asserted: symmetric pairing across a shared oppositely oriented edge of two non-degenerate non-mirrored faces, degenerate faces unlinked, manifold edges connected, every corner maps through the parent relation to its input vertex id, all corners of a vertex lie on the one fan reached from its representative corner; plus the whole Init on two triangles.',
   'design_ref': 'DESIGN.md 3/C13', 'technique': _T + '; inductive (one-phase-from-arbitrary-consistent-state) decomposition',
